@@ -274,6 +274,9 @@ func (r *runner) apply(w *world, st Step) (M, bool) {
 			return M{"harness": err.Error()}, false
 		}
 		mev, _ := rep["events"].([]any)
+		if wv, _ := rep["wf_violation"].([]any); len(wv) > 0 {
+			return M{"what": "a coroutine of the MODEL yielded a transaction that is not well-formed (guarantee side broken)", "diff": fmt.Sprint(wv), "step": st}, false
+		}
 		for _, e := range mev {
 			if m, ok := e.(map[string]any); ok && m["e"] == "panic" {
 				r.counts["predicted_panic"]++
